@@ -100,6 +100,17 @@ package export
 // A map is written with its keys as attribute names only if it is "simple"; Map() decides that from the keys
 // (isSimpleMap), Add relies on it. The link "Add is only called with keys of the map given to Map()" is the
 // traversal's (Export) and is not machine-checked.
+// isSimpleMap iterates the entries with a function literal (verified as the body of the iteration): a map is simple only
+// if every key is an XML name and no value is map-like, list-like or a Format (those are written as nested elements)
+//@ func isSimpleMap
+//@   property C18
+//@   safety C18
+//@   requires m.m != nil
+//@   ensures[simple-means-flat] result ==> (forall k string :: mhas(m.m, k) ==> xmlname(k) && !mapLike(mget(m.m, k)) && !listLike(mget(m.m, k)) && !typeis(mget(m.m, k), Format))
+//@   requires[values-present] forall k string :: mhas(m.m, k) ==> nonnil(mget(m.m, k))
+//@   assigns nothing
+//@   callback "m.Iter(func" invariant isSimple ==> (forall i in 0..cbidx :: xmlname(mkeyAt(m.m, i)) && !mapLike(mget(m.m, mkeyAt(m.m, i))) && !listLike(mget(m.m, mkeyAt(m.m, i))) && !typeis(mget(m.m, mkeyAt(m.m, i)), Format))
+
 //@ func (x xmlMapExporter) Add
 //@   property C18
 //@   safety C18
